@@ -39,6 +39,9 @@ type vSec struct {
 	stallGet atomic.Bool   // the next Get stalls after it has read the store (slow I/O)
 	stalled  chan struct{} // closed when it is stalling
 	stallCh  chan struct{} // closed to let it go
+	stallDel atomic.Bool   // the next Delete stalls before it reaches the store (slow I/O)
+	stalledD chan struct{} // closed when it is stalling
+	stallDCh chan struct{} // closed to let it go
 }
 
 func (s *vSec) Get(key int) (int, int64, int64, bool, error) {
@@ -78,6 +81,10 @@ func (s *vSec) Set(key int, value int, cost int64, expire int64) error {
 }
 
 func (s *vSec) Delete(key int) error {
+	if s.stallDel.CompareAndSwap(true, false) {
+		close(s.stalledD)
+		<-s.stallDCh
+	}
 	s.mu.Lock()
 	_, ok := s.m[key]
 	delete(s.m, key)
@@ -777,6 +784,132 @@ func vHybridStalledGet(tr *vTrace, id string, salt int64) (hang bool) {
 	return false
 }
 
+// vHybridStalledDelete: a hybrid Delete whose call into the secondary store is slow (it stalls before the store
+// removes the key). The key lives in the secondary tier (variant 0) or in both tiers (variant 1: promoted by
+// an earlier Get). While the Delete stalls another client reads the key: the read waits for the Delete (it needs
+// the shard the Delete holds) or at least must not put the secondary copy back into memory. Decisive is the
+// Get after both have returned: the Delete has completed, the key is absent from both tiers.
+func vHybridStalledDelete(tr *vTrace, id string, salt int64) (hang bool) {
+	rnd := vRand(salt)
+	start := int64(1 + rnd.Intn(5000))
+	variant := int(salt % 2)
+	tr.Emit(vRec{"ev": "reset", "id": id, "maxsize": 2, "pool": 0, "door": 0, "loading": 0, "mode": "hybrid",
+		"qcap": WriteChanSize, "t": start, "thresh": vThresh(20), "tick": vTickU(20), "failing": 0})
+	h, sec := vNewHybrid(tr, 2, false, start)
+	defer func() {
+		h.quiet.Store(true)
+		vDeadStores.Store(h.store, true)
+		vTimed(2*time.Second, h.store.Close)
+		SetVerifHandler(nil)
+		vRemoveClock()
+	}()
+	c := h.client("c1")
+	un := c.register()
+	defer un()
+	s := h.store
+	hget := func(p string, x int) {
+		tr.Emit(vRec{"ev": "call", "p": p, "op": "hget", "k": x, "v": 0, "cost": 0, "ttl": 0, "t": h.nowU()})
+		v, ok, err := s.GetWithSecodary(x)
+		code := 0
+		if err != nil {
+			code = 1
+		}
+		tr.Emit(vRec{"ev": "ret", "p": p, "op": "hget", "ok": vb(ok), "v": v, "n": code, "n2": 0})
+	}
+	for x := 1; x <= 5; x++ {
+		c.Set(x, 1, 0)
+		if !h.settleHybrid() {
+			tr.Emit(vRec{"ev": "hang", "p": "c1", "op": "settle"})
+			return true
+		}
+	}
+	k := 0
+	for x := 1; x <= 5 && k == 0; x++ {
+		sec.mu.Lock()
+		_, insec := sec.m[x]
+		sec.mu.Unlock()
+		_, idx := s.index(x)
+		sh := s.shards[idx]
+		tk := sh.mu.RLock()
+		_, inmem := sh.hashmap[x]
+		sh.mu.RUnlock(tk)
+		if insec && !inmem {
+			k = x
+		}
+	}
+	if k == 0 {
+		tr.Emit(vRec{"ev": "end", "stuck": 1, "skipped": 0})
+		return false
+	}
+	if variant == 1 {
+		hget(c.name, k) // promoted: the key is in memory and its copy is still in the secondary tier
+		if !h.settleHybrid() {
+			tr.Emit(vRec{"ev": "hang", "p": "c1", "op": "settle"})
+			return true
+		}
+	}
+	sec.stalledD = make(chan struct{})
+	sec.stallDCh = make(chan struct{})
+	sec.stallDel.Store(true)
+	released := false
+	release := func() {
+		if !released {
+			released = true
+			sec.stallDel.Store(false)
+			close(sec.stallDCh)
+		}
+	}
+	defer release()
+	adone := make(chan struct{})
+	go func() {
+		a := h.client("c2")
+		una := a.register()
+		tr.Emit(vRec{"ev": "call", "p": a.name, "op": "hdel", "k": k, "v": 0, "cost": 0, "ttl": 0, "t": h.nowU()})
+		err := s.DeleteWithSecondary(k)
+		tr.Emit(vRec{"ev": "ret", "p": a.name, "op": "hdel", "ok": vb(err == nil), "v": 0, "n": 0, "n2": 0})
+		una()
+		close(adone)
+	}()
+	select {
+	case <-sec.stalledD:
+	case <-time.After(3 * time.Second):
+		release()
+		<-adone
+		tr.Emit(vRec{"ev": "end", "stuck": 1, "skipped": 0})
+		return false
+	}
+	bdone := make(chan struct{})
+	go func() {
+		b := h.client("c3")
+		unb := b.register()
+		hget(b.name, k)
+		unb()
+		close(bdone)
+	}()
+	select {
+	case <-bdone:
+	case <-time.After(60 * time.Millisecond):
+	}
+	release()
+	for _, ch := range []chan struct{}{adone, bdone} {
+		select {
+		case <-ch:
+		case <-time.After(5 * time.Second):
+			tr.Emit(vRec{"ev": "hang", "p": "c2", "op": "hdel"})
+			return true
+		}
+	}
+	if !h.settleHybrid() {
+		tr.Emit(vRec{"ev": "hang", "p": "c1", "op": "settle"})
+		return true
+	}
+	h.emitSettled(sec)
+	tr.Emit(vRec{"ev": "final"})
+	hget(c.name, k)
+	tr.Emit(vRec{"ev": "end", "stuck": 0, "skipped": 0})
+	return false
+}
+
 func TestVerif_Hybrid(t *testing.T) {
 	out := vOutDir(t)
 	vStoreMu.Lock()
@@ -803,6 +936,11 @@ func TestVerif_Hybrid(t *testing.T) {
 	}
 	for i := 0; i < 2+n/10 && hangs == 0; i++ {
 		if vHybridStalledGet(tr, fmt.Sprintf("hystall%d", i), int64(i)) {
+			hangs++
+		}
+	}
+	for i := 0; i < 2+n/10 && hangs == 0; i++ {
+		if vHybridStalledDelete(tr, fmt.Sprintf("hystalldel%d", i), int64(i)) {
 			hangs++
 		}
 	}
